@@ -49,8 +49,12 @@ def settings_key(kw):
     out = []
     for k in sorted(kw):
         v = kw[k]
+        if hasattr(v, "item") and not hasattr(v, "__len__"):
+            v = v.item()                      # NumPy scalar -> Python number
         if isinstance(v, list):
             v = tuple(v)
+        if isinstance(v, tuple):
+            v = tuple((x.item() if hasattr(x, "item") else x) for x in v)
         if not isinstance(v, (int, float, str, tuple, bool, type(None))):
             v = getattr(v, "__name__", type(v).__name__)
         out.append((k, v))
